@@ -426,6 +426,13 @@ def build(run):
         import ufl.classes as C_
         msh = _mesh("triangle")
         _counter[0] += 1
+        # algorithm OBJECTS that exist before the late geometric types are registered (an object kept between calls)
+        old_objects = {}
+        for cls, args in first.items():
+            try:
+                old_objects[cls] = cls(*args)
+            except Exception:  # noqa: BLE001
+                pass
         LateJ = ufl_type()(UFLType(f"LateJacobian{_counter[0]}x{__import__('os').getpid()}", (C_.Jacobian,), {"__slots__": ()}))
         LateN = ufl_type()(UFLType(f"LateFacetNormal{_counter[0]}x{__import__('os').getpid()}", (C_.FacetNormal,), {"__slots__": ()}))
         objs = [mk() for _, mk in news] + [LateJ(msh), LateN(msh), C_.Indexed(LateJ(msh), C_.MultiIndex((C_.FixedIndex(0), C_.FixedIndex(1))))]
@@ -435,6 +442,8 @@ def build(run):
                 insts.append(("created after the registration", cls(*args)))
             except Exception:  # noqa: BLE001
                 pass
+            if cls in old_objects:
+                insts.append(("an object created before the registration", old_objects[cls]))
             for hist, inst in insts:
                 for o in objs:
                     n += 1
@@ -460,6 +469,38 @@ def build(run):
         return proved("exec(all real algorithm classes x all registered types)", vcs=n,
                       sample=f"{len(first)} real MultiFunction/Transformer classes; skipped (ctor args unknown): {skipped}")
     run.add("real-algorithm-classes/used-before-registration", real, kind="values")
+
+    # ---- plain FUNCTIONS handed to map_expr_dag / map_expr_dags (no handler table of their own): used before and after a registration they reach every
+    # node of an expression containing the late types, with the result of applying them recursively
+    def plain_functions():
+        from ufl.corealg.map_dag import map_expr_dag, map_expr_dags
+
+        def fn(o, *ops):
+            return (type(o).__name__, ops)
+
+        def rec(o):
+            return (type(o).__name__, tuple(rec(x_) for x_ in o.ufl_operands))
+        n = 0
+        for history in ("RU", "URU", "UURUU", "URURU"):
+            late = []
+            for step in history:
+                if step == "R":
+                    late += [register_new_type("term"), register_new_type("op"), register_new_type("sumchild")]
+                else:
+                    for e in old_samples() + [mk() for _, mk in late]:
+                        for route, call in (("map_expr_dag", lambda e_: map_expr_dag(fn, e_)), ("map_expr_dags", lambda e_: map_expr_dags(fn, [e_, e_])[1]),
+                                            ("map_expr_dag(compress=False)", lambda e_: map_expr_dag(fn, e_, compress=False))):
+                            n += 1
+                            try:
+                                got = call(e)
+                            except (IndexError, TypeError, AttributeError, KeyError) as ex:
+                                return violated(f"a plain function through {route}, history {history} (R = types registered, U = function used), applied to {type(e).__name__}: {crash_text(ex)}",
+                                                replay={"history": history, "route": route, "type": type(e).__name__}, reproduced=True, backend="exec")
+                            if got != rec(e):
+                                return violated(f"a plain function through {route}, history {history}, on {type(e).__name__}: {got} instead of {rec(e)}",
+                                                replay={"history": history, "route": route}, reproduced=True, backend="exec")
+        return proved("exec+recursive-oracle", vcs=n, sample=f"{n} (history, route, expression) cases for plain functions")
+    run.add("plain-functions/used-before-and-after-registration", plain_functions, kind="values")
 
     # ---- the public entry FUNCTIONS (they may keep algorithm objects between calls): using one before a type is registered must not change what it
     # does to an instance of that type afterwards.  Two child processes run the same script, with / without a warm-up call before the registration.
